@@ -43,6 +43,9 @@ pub enum KeySpec {
 pub enum ReadOp {
     Get(KeySpec),
     Range { start: Option<Bytes>, end: Option<Bytes>, desc: bool },
+    /// Storage::range_keys / Storage::range_values (separately overridable trait methods)
+    Keys { start: Option<Bytes>, end: Option<Bytes>, desc: bool },
+    Values { start: Option<Bytes>, end: Option<Bytes>, desc: bool },
 }
 
 #[derive(Clone, Debug, Serialize, Deserialize, PartialEq, Eq)]
